@@ -644,6 +644,25 @@ def solve_valid_inc(s, goal, timeout_ms):
         _z3cli_kill(h_)
     if verdict is not None:
         return verdict
+    # none of the three processes decided: the cone once more, in-process (the API build with its own tactic
+    # defaults decides some non-linear queries that the command-line run of the same version leaves open)
+    s2 = z3.Solver()
+    s2.set("timeout", timeout_ms)
+    for a in cone:
+        s2.add(a)
+    s2.add(asserts[-1])
+    r = s2.check()
+    if r == z3.unsat:
+        return "valid", "z3-cone", None
+    if r == z3.sat:
+        md = _model_to_dict(s2.model())
+        ms = "; ".join(f"{k}={v}" for k, v in sorted(md.items()) if len(v) < 80)[:2000]
+        s3 = z3.Solver()
+        s3.set("timeout", min(timeout_ms, 5000))
+        for a in rest:
+            s3.add(a)
+        if s3.check() != z3.unsat:
+            return "invalid", "z3-cone", (ms, md)
     try:
         r2 = _cvc5_check(smt2, max(3000, timeout_ms // 2))
     except Exception:
